@@ -55,6 +55,36 @@ def mk_engine(rec, repo, bmc=False):
     return eng
 
 
+LN2 = fractions.Fraction(6931471805599453, 10 ** 16)
+
+
+def exp_constraints(obls, kmax=8):
+    """functions that call np.exp / np.log (the time-decayed EMAs compute exp(-log(2) * dt / halflife)): in the encoding EXP and LOG are uninterpreted, so a model's numbers are
+    not the real ones. For the bounded search every EXP application is confined to the points where the real function is dyadic: its argument must be -log(2) * n for an integer
+    0 <= n <= kmax, and there EXP is 2^-n (LOG(2) pinned to its decimal expansion to 16 digits). Inputs are thereby restricted to elapsed times that are whole halflives -
+    a restriction of the SEARCH only; the real function agrees with these values to ~1e-16, far inside the comparison tolerance of the native replay."""
+    apps = {}; logs = {}
+    stack = [t for ob in obls for t in list(ob.hyps) + [ob.goal]]; seen = set()
+    while stack:
+        x = stack.pop()
+        if x.get_id() in seen: continue
+        seen.add(x.get_id())
+        if z3.is_quantifier(x): stack.append(x.body()); continue
+        if z3.is_app(x):
+            if x.decl().name() == "EXP" and x.num_args() == 1: apps[x.get_id()] = x
+            if x.decl().name() == "LOG" and x.num_args() == 1: logs[x.get_id()] = x
+            stack.extend(x.children())
+    cons = []
+    for lg in logs.values():
+        a = z3.simplify(lg.arg(0))
+        if z3.is_rational_value(a) and a.numerator_as_long() == 2 and a.denominator_as_long() == 1: cons.append(lg == z3.RealVal(f"{LN2.numerator}/{LN2.denominator}"))
+    for i, t in enumerate(apps.values()):
+        n = z3.Int(f"exp_n!{i}"); val = z3.RealVal(0)
+        for k in reversed(range(kmax + 1)): val = z3.If(n == k, z3.RealVal(f"1/{2 ** k}"), val)
+        cons += [n >= 0, n <= kmax, t.arg(0) == -z3.RealVal(f"{LN2.numerator}/{LN2.denominator}") * z3.ToReal(n), t == val]
+    return cons, bool(apps)
+
+
 def add_axioms(eng, st, rec):
     """defining equations of specification symbols that this function's own contract takes from a callee's contract (the callee proves its result against them; the caller's
     bounded execution needs them so that a model's interpretation of the symbols is the intended one)"""
@@ -326,6 +356,8 @@ def search(rec, repo, budget=120.0, want_kinds=KINDS, only_obligations=None, ver
                 rep.setdefault("skipped_shapes", []).append(f"{type(ex).__name__}: {ex}"[:160]); continue
             if eng.pre_sat == "unsat": continue
             extra = rec["extra_hyps"](eng) if rec["extra_hyps"] else []
+            expc, uses_exp = exp_constraints(obls)
+            if uses_exp: extra = []; cons = cons + expc; rep["exp_points"] = "every exp() argument confined to -log(2)*n, n = 0..8 (elapsed times that are whole halflives)"
             for ob in obls:
                 if ob.kind not in want_kinds: continue
                 if only_obligations and not any(ob.name.split("@")[0].endswith(x) for x in only_obligations): continue
@@ -347,7 +379,7 @@ def search(rec, repo, budget=120.0, want_kinds=KINDS, only_obligations=None, ver
                     want_exc = {"raises": None, "assert": "AssertionError", "divzero": "ZeroDivisionError"}[ob.kind]
                     agree = nat["raised"] is not None and (want_exc is None or nat["raised"].startswith(want_exc)); pred_txt = f"raises {want_exc or 'an exception'}"
                 # (b) with the input fixed the obligation fails under every admissible interpretation of the specification functions
-                s2 = z3.Solver(); s2.set(timeout=8000); s2.add(*ob.hyps); s2.add(*extra)
+                s2 = z3.Solver(); s2.set(timeout=8000); s2.add(*ob.hyps); s2.add(*extra); s2.add(*expc)
                 for z, elem, where in atoms: s2.add(z == zconst(zval(m, z, elem), elem))
                 s2.add(ob.goal); forced = s2.check() == z3.unsat
                 cx = {"obligation": f"{os.path.basename(rec['file'])}::{ob.name}", "kind": ob.kind, "line": ob.line, "shape": {k: v for k, v in conc.items()}, "args": args,
@@ -372,8 +404,6 @@ def xcheck(rec, repo, budget=40.0, max_paths=24):
     extra_fn = rec.get("extra_hyps"); rec = concretize(rec); fname = registry.fname_of(rec); t0 = time.time()
     rep = {"function": fname, "paths_executed": 0, "agree": 0, "disagree": [], "skipped": 0}
     if not runnable(rec): rep["status"] = "not-runnable"; return rep
-    if "__exp__" in (rec["specs"]() if callable(rec["specs"]) else (rec["specs"] or {})):
-        rep["status"] = "not-comparable"; rep["why"] = "exp / log are uninterpreted symbols in the encoding: a model's numbers are not the real ones"; return rep
     E.EXACT_DIV = True; seen_paths = set(); SAFETY = ("bounds", "negindex", "overflow", "pre", "shape", "alloc", "lossy", "exact", "assert", "divzero", "raises")
     try:
         for conc in shapes(rec, repo, budget=budget):
@@ -383,6 +413,8 @@ def xcheck(rec, repo, budget=40.0, max_paths=24):
             except (Unsupported, Stale): rep["skipped"] += 1; continue
             if eng.pre_sat == "unsat": continue
             extra = rec["extra_hyps"](eng) if rec.get("extra_hyps") else []
+            expc, uses_exp = exp_constraints(obls)
+            if uses_exp: extra = list(expc); rep["exp_points"] = "exp() arguments confined to -log(2)*n, n = 0..8"
             for ob in obls:
                 if ob.outcome not in ("return", "raise") and ob.kind not in ("assert", "divzero"): continue
                 path = (json.dumps(conc, sort_keys=True), ob.name.split("@", 1)[1].rsplit("#", 1)[0], ob.kind if ob.outcome is None else ob.outcome)
